@@ -746,7 +746,9 @@ impl convert::TryFrom<XmlNode> for Rc<info::XmlItem> {
             XmlNode::Namespace(v) => Rc::new(v.namespace.into()),
             XmlNode::Notation(v) => Rc::new(v.notation.into()),
             XmlNode::PI(v) => Rc::new(v.pi.into()),
-            XmlNode::ExpandedText(_) => unimplemented!("multi text node."),
+            // Elements and attributes insert the pieces of a merged text node one by one;
+            // nothing else may have text children.
+            XmlNode::ExpandedText(_) => return Err(error::DomException::HierarchyRequestErr)?,
             XmlNode::Text(v) => Rc::new(v.data.into()),
         };
         Ok(v)
@@ -1611,6 +1613,27 @@ impl NodeMut for XmlAttr {
             return Err(error::DomException::WrongDocumentErr)?;
         }
 
+        if let XmlNode::ExpandedText(text) = &new_child {
+            // A merged text node stands for all of its pieces: they are inserted one by one.
+            let first = text.data.first().map(|v| v.id());
+            if ref_child.map(|r| Some(r.id()) == first).unwrap_or(false) {
+                // Inserting a node before itself changes nothing.
+                return Ok(new_child);
+            }
+            // An attribute takes text and entity references only: refuse before moving anything.
+            if text
+                .data
+                .iter()
+                .any(|v| !matches!(v, XmlNode::Text(_) | XmlNode::EntityReference(_)))
+            {
+                return Err(error::DomException::HierarchyRequestErr)?;
+            }
+            for piece in text.data.iter() {
+                self.insert_before(piece.clone(), ref_child)?;
+            }
+            return Ok(new_child);
+        }
+
         let value = if let Some(r) = ref_child {
             if !XmlDocument::same(&self.owner_document(), &r.owner_document()) {
                 return Err(error::DomException::WrongDocumentErr)?;
@@ -1929,6 +1952,19 @@ impl NodeMut for XmlElement {
     ) -> error::Result<XmlNode> {
         if !XmlDocument::same(&self.owner_document(), &new_child.owner_document()) {
             return Err(error::DomException::WrongDocumentErr)?;
+        }
+
+        if let XmlNode::ExpandedText(text) = &new_child {
+            // A merged text node stands for all of its pieces: they are inserted one by one.
+            let first = text.data.first().map(|v| v.id());
+            if ref_child.map(|r| Some(r.id()) == first).unwrap_or(false) {
+                // Inserting a node before itself changes nothing.
+                return Ok(new_child);
+            }
+            for piece in text.data.iter() {
+                self.insert_before(piece.clone(), ref_child)?;
+            }
+            return Ok(new_child);
         }
 
         let value = if let Some(r) = ref_child {
